@@ -553,7 +553,7 @@ def ref_expand(variant, msg, dst, n):
     if variant.startswith('xof'):
         H = hashlib.shake_128 if variant == 'xof128' else hashlib.shake_256
         return H(msg + n.to_bytes(2, 'big') + dst + bytes([len(dst)])).digest(n)
-    H = hashlib.sha256 if variant == 'xmd256' else hashlib.sha512
+    H = dict(xmd256=hashlib.sha256, xmd512=hashlib.sha512, xmd384=hashlib.sha384, xmd224=hashlib.sha224)[variant]
     b, sblk = H().digest_size, H().block_size
     ell = (n + b - 1) // b
     if ell > 255:
@@ -570,7 +570,7 @@ def refute_expand(binp):
     rnd = random.Random(19)
     msgs = [b'', b'abc', rnd.randbytes(200)]
     dsts = [b'', b'Q', b'QUUX-V01-CS02-with-expander', rnd.randbytes(254), rnd.randbytes(255), b'\xff' * 255]
-    for variant, lens in (('xmd256', (0, 1, 31, 32, 33, 64, 128, 255 * 32 - 1, 255 * 32, 255 * 32 + 1, 9000)), ('xmd512', (1, 64, 65, 96, 255 * 64, 255 * 64 + 1)),
+    for variant, lens in (('xmd256', (0, 1, 31, 32, 33, 64, 128, 255 * 32 - 1, 255 * 32, 255 * 32 + 1, 9000)), ('xmd512', (1, 64, 65, 96, 255 * 64, 255 * 64 + 1)), ('xmd384', (1, 48, 49, 128)), ('xmd224', (1, 28, 57)),
                           ('xof128', (0, 1, 32, 168, 169, 500, 8160)), ('xof256', (1, 48, 136, 137, 300))):
         for n in lens:
             for mi, msg in enumerate(msgs):
@@ -598,6 +598,50 @@ def refute_expand(binp):
                         act = [hex(int(x, 16)) for x in out.get('out', [])]
                         if act != exp:
                             return dict(function=f"hash_to_field:{field}:{variant}", input=dict(msg=msg.hex(), dst=dst.hex(), count=count), actual=str(act)[:300], expected=str(exp)[:300], command=cmd[:600])
+    return None
+
+
+# ---- the hashing API (C06): composition of hash_to_field and the public maps, plus three RFC 9380 known answers ------------------------------
+H2C_KAT = [   # (group, DST, which, uncompressed bytes for msg = "") - RFC 9380 J.9.1, J.9.2 (G1) and J.10.1 (G2; x only)
+    ('g1', b'QUUX-V01-CS02-with-BLS12381G1_XMD:SHA-256_SSWU_RO_', 0,
+     '052926add2207b76ca4fa57a8734416c8dc95e24501772c814278700eed6d1e4e8cf62d9c09db0fac349612b759e79a1'
+     '08ba738453bfed09cb546dbb0783dbb3a5f1f566ed67bb6be0e8c67e2e81a4cc68ee29813bb7994998f3eae0c9c6a265'),
+    ('g1', b'QUUX-V01-CS02-with-BLS12381G1_XMD:SHA-256_SSWU_NU_', 1,
+     '184bb665c37ff561a89ec2122dd343f20e0f4cbcaec84e3c3052ea81d1834e192c426074b02ed3dca4e7676ce4ce48ba'
+     '04407b8d35af4dacc809927071fc0405218f1401a6d15af775810e4e460064bcc9468beeba82fdc751be70476c888bf3'),
+    ('g2', b'QUUX-V01-CS02-with-BLS12381G2_XMD:SHA-256_SSWU_RO_', 0,
+     '05cb8437535e20ecffaef7752baddf98034139c38452458baeefab379ba13dff5bf5dd71b72418717047f5b0f37da03d'
+     '0141ebfbdca40eb85b87142e130ab689c673cf60f1a3e98d69335266f30d9b8d4ac44c1038e9dcdd5393faf5c41fb78a'),
+]
+
+
+def refute_h2c(binp):
+    rnd = random.Random(23)
+    msgs = [b'', b'abc', rnd.randbytes(133)]
+    dsts = [b'QUUX-V01-CS02-with-BLS12381G1_XMD:SHA-256_SSWU_RO_', b'', rnd.randbytes(255)]
+    for g in ('g1', 'g2'):
+        for variant in ('xmd256', 'xmd512', 'xof128'):
+            for mi, msg in enumerate(msgs):
+                for di, dst in enumerate(dsts):
+                    if not THOROUGH[0] and (mi + di) % 2:
+                        continue
+                    out, cmd = run_bin(binp, 'h2c', dict(g=g, variant=variant, msg=msg.hex(), dst=dst.hex()))
+                    if 'error' in out or len(out.get('out', [])) != 4:
+                        continue
+                    ro, nu, cro, cnu = out['out']
+                    if ro != cro:
+                        return dict(function=f"hash_to_curve:{g}:{variant}", input=dict(msg=msg.hex(), dst=dst.hex()), actual=ro[:300],
+                                    expected='map2_to_curve(u[0], u[1]) for u = hash_to_field(msg, dst, 2): ' + cro[:300], command=cmd[:600])
+                    if nu != cnu:
+                        return dict(function=f"encode_to_curve:{g}:{variant}", input=dict(msg=msg.hex(), dst=dst.hex()), actual=nu[:300],
+                                    expected='map_to_curve(u[0]) for u = hash_to_field(msg, dst, 1): ' + cnu[:300], command=cmd[:600])
+    for g, dst, which, exp in H2C_KAT:
+        out, cmd = run_bin(binp, 'h2c', dict(g=g, variant='xmd256', msg='', dst=dst.hex()))
+        if 'error' in out or ':' not in out.get('tag', ''):
+            continue
+        act = out['tag'].split(':')[which][:len(exp)]
+        if act != exp:
+            return dict(function=('hash_to_curve', 'encode_to_curve')[which] + f":{g}:xmd256 (RFC 9380 known answer)", input=dict(msg='', dst=dst.hex()), actual=act, expected=exp, command=cmd[:600])
     return None
 
 
@@ -793,12 +837,15 @@ def refute_tower(binp):
 STANDINS = {
     'batch_normalization': (refute_batch, "CurveProjective::batch_normalization (iterator adaptor chains: outside the Verus subset): every mix and order of identity / normalized / general representatives, up to 5 points"),
     'wnaf_contexts_precomp_3': (refute_scalar_paths, "(cross-check: under contract in units wnaf / precomp) Wnaf context methods with reuse histories and precomp_3 / mul_precomp_3: structured scalars (0, 1, word and chunk boundaries, r-1, r, 2^255-1), both staging orders, table sizes for 1 / 5 / 100000 scalars"),
-    'expand_message_hash_to_field': (refute_expand, "(cross-check: under contract in units expand / okm; the abort beyond 255 blocks is only observable here) ExpandMsgXmd / ExpandMsgXof / hash_to_field through the real sha2 / sha3 crates against hashlib: tag lengths 0, 1, 27, 254, 255; output lengths around every block boundary and the 255-block limit (abort expected beyond it); element counts 0..5"),
+    'expand_message_hash_to_field': (refute_expand, "(cross-check: under contract in units expand / okm; the abort beyond 255 blocks is only observable here) ExpandMsgXmd / ExpandMsgXof / hash_to_field through the real sha2 / sha3 crates (SHA-256, SHA-512, SHA-384, SHA-224, SHAKE128, SHAKE256) against hashlib: tag lengths 0, 1, 27, 254, 255; output lengths around every block boundary and the 255-block limit (abort expected beyond it); element counts 0..5"),
     'sum_of_products': (refute_msm, "(also under contract in unit msm; kept as an end-to-end cross-check through the compiled point formulas) sum_of_products / sum_of_products_pippinger (windows 1..20) / sum_of_products_precomp_256: empty input, duplicates, inverse pairs, identity points, zero scalars, mismatched lengths, scalars with bits at word boundaries and 2^255-1"),
     'serdes_streams': (refute_serdes, "(cross-check: the SerDes functions are under contract in units serdes / serout) serialize / deserialize for Fr, Fq12, G1, G2 and the affine types end to end: bytes written after existing sink content, bytes consumed with 0 / 50 / 9000 trailing bytes, truncation at several lengths, non-reduced blocks"),
     'tower_ops': (refute_tower, "(cross-check: the tower is under contract in unit tower) Fq2 / Fq6 / Fq12 inverse, square, mul_assign and frobenius_map on zero, one, every single-coefficient element, single-block elements and random elements; "
                   "frobenius_map(1) against x^q, every power (0..30, 1000, usize::MAX) against iterated application, no panic"),
     'fq2_sqrt_order': (refute_fq2, "Fq2::sqrt (Algorithm 9: only its constants and the zero case are under contract, A8'), legendre, cmp / partial_cmp, sgn0 on zero, +-1, +-u, 2, 2u, real, purely imaginary and random elements and their squares"),
+    'hash_to_curve_api': (refute_h2c, "(cross-check: the glue is under contract in unit h2c) HashToCurve::hash_to_curve / encode_to_curve for G1 and G2 over XMD-SHA-256, XMD-SHA-512 and SHAKE128 against the composition "
+                          "map2_to_curve(u[0], u[1]) with count = 2 / map_to_curve(u[0]) with count = 1 of the real hash_to_field and maps (each under contract elsewhere), empty / short / long messages and tags; "
+                          "three RFC 9380 known answers (J.9.1, J.9.2, J.10.1 for the empty message)"),
     'encoders_api': (lambda binp: refute_encode(binp), "into_compressed / into_uncompressed through the public API on random points, both roots, small x, y in Fq / purely imaginary, the identity, with non-trivial Z"),
 }
 
